@@ -27,6 +27,13 @@ func approxNumber(v VSpec) (decimal.Decimal, bool) {
 			d, err := decimal.NewFromString(strings.TrimSpace(v.S))
 			return d, err == nil
 		}
+	case "obj":
+		// an object converts through its default
+		for i, k := range v.K {
+			if k == "__default__" {
+				return approxNumber(v.I[i])
+			}
+		}
 	case "json":
 		s := strings.TrimSpace(v.S)
 		if s != "" && (s[0] == '-' || (s[0] >= '0' && s[0] <= '9')) && !jsonHasHugeExponent(s) {
